@@ -6,7 +6,11 @@ typedef struct { snd_t *sender_context; uint32_t ssn_freq; int (*save_seq_num_fu
 extern int encode(unsigned char *b, uint64_t v);
 extern void *mk(void);
 static int step(osc_t *c) { c->sender_context->seq++; return c->sender_context->seq < 1000; }
-snd_t *build(uint64_t start) { snd_t *s = malloc(sizeof(*s)); if (!s) return 0; s->seq = start; s->next_seq = start; return s; }
+typedef struct { uint64_t start_seq_num; uint32_t ssn_freq; } conf_t;
+snd_t *build(conf_t *cf) { snd_t *s = malloc(sizeof(*s)); if (!s) return 0; s->next_seq = cf->start_seq_num - cf->start_seq_num % cf->ssn_freq; s->seq = cf->start_seq_num; return s; }
+snd_t *build_rounded(conf_t *cf) { snd_t *s = malloc(sizeof(*s)); if (!s) return 0; s->next_seq = cf->start_seq_num - cf->start_seq_num % cf->ssn_freq;
+  s->seq = s->next_seq;                                              // EXPECT R-SSN-ORDER
+  return s; }
 void reset(osc_t *c) { c->sender_context->seq = 0; }                 // EXPECT R-SSN-ORDER
 void *good(osc_t *c, int req) {
   unsigned char b[8];
